@@ -21,7 +21,8 @@ EXPLANATION = (
     "the same expression; R11.6 from_array detaches from the caller's buffer; R11.7 no live collection handle is captured "
     "by reference inside a container operand of an expression (Expr.__new__ converts only top-level operands) - every "
     "construction site feeding a container-valued parameter from a function parameter passes through "
-    "snapshot_collections or is an enumerated, reasoned exemption. Values (that x computes the NumPy result of the "
+    "snapshot_collections or is an enumerated, reasoned exemption; R11.8 the tasks built for the assignment path call their "
+    "kernels with an argument list the kernel can bind (writer/reader agreement, sa/rules/taskarity.py). Values (that x computes the NumPy result of the "
     "assignment) are not decided."
 )
 ASSUMPTIONS = [
@@ -372,7 +373,20 @@ def r11_6(ctx):
     return rr
 
 
-RULES = [r11_1, r11_2, r11_3, r11_4, r11_5, r11_6, r11_7]
+def r11_8(ctx):
+    from .taskarity import task_arity_rule
+
+    return task_arity_rule(
+        ctx, "R11.8",
+        "the tasks of the assignment path (slicing/_setitem.py: the SetItem kernel call and the single-chunk concatenation of a "
+        "dask-array value) pass their kernels an argument list the kernel's def can bind",
+        in_scope=lambda rel: rel == "dask_array/slicing/_setitem.py",
+        min_decided=2,
+        consequence="x[index] = <dask array value with more than one block> raises TypeError at compute instead of computing the NumPy result of the assignment",
+    )
+
+
+RULES = [r11_1, r11_2, r11_3, r11_4, r11_5, r11_6, r11_7, r11_8]
 
 from .upstream import upstream_facts  # noqa: E402
 
